@@ -58,7 +58,7 @@ pub fn prop(tier: Tier, seed: u64) -> Prop {
             let place = PLACES[d[2]];
             let splace = PLACES[(d[2] + 3) % PLACES.len()];
             ctx.sample(|| json!({"operation": format!("{:?}", opk), "src": [sw, sh], "dst": [dw0, dh0], "dst_placement": format!("{:?}", place), "src_placement": format!("{:?}", splace),
-                "inside": "13 pixel types x back-ends x 11 source kinds x 11 destination kinds (pairwise) x {dynamic, typed} entry"}));
+                "inside": "13 pixel types x back-ends x 12 source kinds x 11 destination kinds (pairwise) x {dynamic, typed} entry"}));
             if ctx.describe_only {
                 return;
             }
